@@ -37,6 +37,8 @@ pub struct Profile {
 	pub onchain: bool,
 	/// copies of the nodes receive the same blocks in other legal delivery styles (C11)
 	pub chain_equiv: bool,
+	/// real reorganisations (competing forks of depth < 6) during the on-chain phase
+	pub reorgs: bool,
 	/// forwarding-deadline scenarios on a line of three nodes (C08)
 	pub deadline_sweep: bool,
 	/// every node also feeds a real MonitorUpdatingPersister over a recording store (C19 c)
@@ -44,7 +46,7 @@ pub struct Profile {
 }
 impl Profile {
 	pub fn for_prop(prop: &str, thorough: bool) -> Profile {
-		let base = Profile { prop: prop.to_string(), steps: if thorough { 1500 } else { 600 }, nodes: 2, allow_async: false, allow_deferred: false, allow_disconnect: true, allow_fee_updates: true, allow_ticks: true, coop_close_at_end: true, multi_hop: false, mid_settles: true, allow_restart: false, allow_force_close: false, persist_manager_often: false, parallel: false, pay_workload: false, onchain: false, chain_equiv: false, deadline_sweep: false, mup_shadow: false };
+		let base = Profile { prop: prop.to_string(), steps: if thorough { 1500 } else { 600 }, nodes: 2, allow_async: false, allow_deferred: false, allow_disconnect: true, allow_fee_updates: true, allow_ticks: true, coop_close_at_end: true, multi_hop: false, mid_settles: true, allow_restart: false, allow_force_close: false, persist_manager_often: false, parallel: false, pay_workload: false, onchain: false, chain_equiv: false, reorgs: false, deadline_sweep: false, mup_shadow: false };
 		match prop {
 			"C01" => base,
 			"C05" => Profile { allow_async: true, allow_restart: true, allow_force_close: true, ..base },
@@ -55,8 +57,8 @@ impl Profile {
 			"C12" => Profile { allow_async: true, allow_deferred: true, nodes: 3, multi_hop: true, allow_restart: true, allow_force_close: true, parallel: true, pay_workload: true, ..base },
 			"C19" => Profile { mup_shadow: true, nodes: 3, multi_hop: true, parallel: true, pay_workload: true, allow_async: false, allow_force_close: true, ..base },
 			"C08" => Profile { deadline_sweep: true, steps: 0, nodes: 3, multi_hop: true, allow_async: false, coop_close_at_end: false, ..base },
-			"C11" => Profile { onchain: true, chain_equiv: true, steps: if thorough { 200 } else { 120 }, allow_async: false, coop_close_at_end: false, mid_settles: true, ..base },
-			"C06" | "C07" => Profile { onchain: true, steps: if thorough { 260 } else { 160 }, allow_async: false, coop_close_at_end: false, mid_settles: true, ..base },
+			"C11" => Profile { onchain: true, chain_equiv: true, reorgs: true, steps: if thorough { 200 } else { 120 }, allow_async: false, coop_close_at_end: false, mid_settles: true, ..base },
+			"C06" | "C07" => Profile { onchain: true, reorgs: true, steps: if thorough { 260 } else { 160 }, allow_async: false, coop_close_at_end: false, mid_settles: true, ..base },
 			"C10" => Profile { allow_async: true, allow_deferred: true, nodes: 3, multi_hop: true, allow_restart: true, persist_manager_often: true, ..base },
 			_ => base,
 		}
@@ -238,6 +240,14 @@ fn run_one_inner(args: &Args, prof: &Profile, run: u64, rep: &mut Report, make_m
 			// Release builds overwrite the request and hand the user a second, identical bump event. Observation.
 			outcome = "ldk debug assertion (duplicate claim id after reload)".to_string();
 			rep.count("ldk_debug_assert_duplicate_claim_id_after_reload");
+		},
+		Err(p) if p.contains("HTLCs should be sorted") => {
+			// Debug-only assertion in PaymentId::for_inbound_from_htlcs, reached from ChannelManager::read: a stale
+			// manager still holds an MPP set that was incomplete (hence unsorted) when it was serialized, a newer
+			// monitor holds the preimage of the completed payment, and begin_claiming_payment derives the inbound
+			// payment id from the stale parts. Release builds read the manager and report the claim. Observation.
+			outcome = "ldk debug assertion (unsorted parts of a stale claimable payment on reload)".to_string();
+			rep.count("ldk_debug_assert_unsorted_stale_claimable_payment");
 		},
 		Err(p) => {
 			outcome = format!("panic: {}", p);
@@ -867,6 +877,8 @@ fn drive(sim: &mut Sim, prof: &Profile, rng: &mut Rng, rep: &mut Report, ctype: 
 	if prof.onchain {
 		sim.w.step += 1;
 		sim.w.chain_equiv = prof.chain_equiv;
+		sim.w.reorgs = prof.reorgs;
+		sim.w.justice_focus = prof.prop == "C06";
 		crate::onchain::phase(sim, rng, rep)?;
 		sim.dispatch(rep);
 		sim.end(rep);
